@@ -265,11 +265,28 @@ Fixpoint all_props (bm : bindmap) (tasks : list task) : option (list props) :=
               end
   end.
 
+(* an ipc:// endpoint exists on the host of the task that binds it only: the host recorded for
+   a key is that of the task that registered the entry (alias: the first claimant; path:name:
+   the last writer), and a task with channel configuration whose outbound target resolves to
+   an IPC endpoint of another host fails the configuration *)
+Definition writes_keyb (t : task) (k : str) : bool :=
+  existsb (fun kv : str * endpoint => str_eqb (bind_key (t_path t) (fst kv)) k) (t_local t).
+Definition key_host (tasks : list task) (k : str) : option str :=
+  option_map t_host (find (fun t => writes_keyb t k) (if is_alias_key k then tasks else rev tasks)).
+Definition is_ipc_ep (e : endpoint) : bool := match e with Ipc _ _ => true | Tcp _ _ _ => false end.
+Definition cross_ipc (tasks : list task) (bm : bindmap) (t : task) : bool :=
+  t_chans t &&
+  existsb (fun o => match assoc (o_target o) bm with
+                    | Some ep => is_ipc_ep ep &&
+                                 negb (option_eqb str_eqb (key_host tasks (o_target o)) (Some (t_host t)))
+                    | None => false
+                    end) (t_out t).
+
 (* configureTasks up to the point where the command is sent: None = the configuration fails *)
 Definition configure (tasks : list task) : option (list props) :=
   match env_bindmap tasks with
   | None => None
-  | Some bm => all_props bm tasks
+  | Some bm => if existsb (cross_ipc tasks bm) tasks then None else all_props bm tasks
   end.
 
 (* ---------- workflows: one entry per task role, with the declarations along its path ---------- *)
@@ -460,14 +477,21 @@ Definition hits_of (bs : list binder) (d : outbound) : list binder :=
 Definition named_by (bs : list binder) (d : outbound) : list binder :=
   filter (fun b : binder => let '(_, w, _, e) := b in target_names (o_target d) (w_path w) e) bs.
 
-Definition check_out (bs : list binder) (pr : props) (d : outbound) : N :=
+(* the binder's host *)
+Definition binder_host (b : binder) : str := let '(_, w, _, _) := b in w_host w.
+
+Definition check_out (bs : list binder) (host : str) (pr : props) (d : outbound) : N :=
   match assoc (o_name d) pr with
   | None => if negb (is_explicit (o_target d)) && negb (nonempty (hits_of bs d)) then 15 else 2
   | Some (addr, meth, tr) =>
     if negb (str_eqb meth m_connect) then 2
     else if is_explicit (o_target d) then
       (if str_eqb addr (o_target d) && str_eqb tr (o_tr d) then 0 else 3)
-    else if existsb (good_hit addr tr) (hits_of bs d) then 0
+    else if existsb (good_hit addr tr) (hits_of bs d) then
+      (* an IPC endpoint can be reached on the binder's host only *)
+      (if has_prefix s_ipc addr &&
+          negb (existsb (fun b => good_hit addr tr b && str_eqb (binder_host b) host) (hits_of bs d))
+       then 16 else 0)
     else if existsb (known_hit 5 addr tr) (named_by bs d) then 5
     else if existsb (known_hit 6 addr tr) (named_by bs d) then 6
     else if nonempty (hits_of bs d) then 1 else 4
@@ -515,7 +539,7 @@ Definition advertised_codes (ws : list wtask) (locals : list bindmap) : list N :
            (combine ws locals).
 
 (* the configuration failed: it must be because of an unmatched target, an inbound channel
-   with an invalid target, or an alias claimed twice *)
+   with an invalid target, an alias claimed twice, or an IPC endpoint of another host *)
 Definition unmatched_in (ws : list wtask) : bool :=
   let bs := binders_of (map (fun w => (w, [], [])) ws) in
   existsb (fun w => w_chans w &&
@@ -523,6 +547,13 @@ Definition unmatched_in (ws : list wtask) : bool :=
                             (eff_out w)) ws.
 Definition invalid_in (ws : list wtask) : bool :=
   existsb (fun w => w_chans w && existsb (fun e => invalid_target (i_target e)) (eff_in w)) ws.
+Definition cross_ipc_in (ws : list wtask) : bool :=
+  let bs := binders_of (map (fun w => (w, [], [])) ws) in
+  existsb (fun w => w_chans w &&
+                    existsb (fun d => existsb (fun b : binder => let '(_, w', _, e) := b in
+                                                 i_ipc e && negb (str_eqb (w_host w') (w_host w)))
+                                              (hits_of bs d))
+                            (eff_out w)) ws.
 Definition alias_twice (ws : list wtask) : bool :=
   negb (forallb (N.eqb 0) (codes9 ws)) || cross_dup (map free_aliases ws).
 
@@ -539,11 +570,11 @@ Definition mon_env (ws : list wtask) (obs : option (list (bindmap * props))) (po
             flat_map (fun x : wtask * props * list N =>
                         let '(w, pr, pt) := x in
                         if w_chans w
-                        then map (check_out bs pr) (eff_out w) ++ map (check_in pt pr) (eff_in w)
+                        then map (check_out bs (w_host w) pr) (eff_out w) ++ map (check_in pt pr) (eff_in w)
                         else [])
                      wpp in
         pick (per_task ++ codes9 ws ++ codes8 ws ++ advertised_codes ws (map fst os))
-    | None => if unmatched_in ws || invalid_in ws || alias_twice ws then 0 else 12
+    | None => if unmatched_in ws || invalid_in ws || alias_twice ws || cross_ipc_in ws then 0 else 12
     end.
 
 Definition key_in (k : str) (bm : bindmap) : bool := is_some (assoc k bm).
@@ -621,7 +652,8 @@ Definition tag13 (c : c13_case) : N :=
     let ts := map task_of ws in
     match env_bindmap ts with
     | None => 102
-    | Some bm => match all_props bm ts with
+    | Some bm => if existsb (cross_ipc ts bm) ts then 106 else
+                 match all_props bm ts with
                  | None => 103
                  | Some _ =>
                    100 + (if existsb (fun t => existsb (fun o => negb (is_explicit (o_target o)))
